@@ -221,6 +221,16 @@ func withProcs(n int, f func()) {
 	f()
 }
 
+func setProcs(n int) int {
+	if n > 0 {
+		return runtime.GOMAXPROCS(n)
+	}
+	return 0
+}
+
+// withProcsNoSet runs f; used where GOMAXPROCS has been set once for a whole concurrent round.
+func withProcsNoSet(f func()) { f() }
+
 func execOn(ctx context.Context, e QueryEngine, st storage.Queryable, cfg EngineCfg, q string, w Window, phase func(int32)) ExecOut {
 	var out ExecOut
 	withProcs(cfg.Procs, func() {
@@ -264,6 +274,13 @@ func RunDistributed(ctx context.Context, parts []storage.Queryable, cfg EngineCf
 
 // RunDistributedPhase is RunDistributed with a callback invoked right after Exec returned.
 func RunDistributedPhase(ctx context.Context, parts []storage.Queryable, cfg EngineCfg, q string, w Window, phase func(int32)) ExecOut {
+	return RunDistributedOver(ctx, emptyQueryable{}, parts, cfg, q, w, phase)
+}
+
+// RunDistributedOver gives the distributed engine `global` as its own queryable: the parts of a plan
+// that are not distributed (and the fallback) read from it, as in the repository's own tests, where
+// it is the union of the partitions.
+func RunDistributedOver(ctx context.Context, global storage.Queryable, parts []storage.Queryable, cfg EngineCfg, q string, w Window, phase func(int32)) ExecOut {
 	engines := make([]api.RemoteEngine, len(parts))
 	for i, p := range parts {
 		engines[i] = engine.NewLocalEngine(engOpts(cfg, nil), p)
@@ -271,7 +288,7 @@ func RunDistributedPhase(ctx context.Context, parts []storage.Queryable, cfg Eng
 	de := engine.NewDistributedEngine(engOpts(cfg, nil), api.NewStaticEndpoints(engines))
 	// the distributed engine plans over remote engines only; the queryable it is given is unused by
 	// distributed leaves but must be non-nil for any local leaf.
-	return execOn(ctx, de, emptyQueryable{}, cfg, q, w, phase)
+	return execOn(ctx, de, global, cfg, q, w, phase)
 }
 
 type emptyQueryable struct{}
